@@ -69,9 +69,12 @@ termination_by n => sizeOf n
 decreasing_by subst hm; have := Entry.sizeOf_child_lt he; simp_wf; omega
 
 /-- The tree invariant of the property: balanced with `Depth` = leaf depth, exact envelopes,
-fan-out ≤ Max, `Size` = number of stored objects. -/
+fan-out ≤ Max, `Size` = number of stored objects.  "`Depth` equal to the depth of the leaves"
+presupposes that there is a leaf: a non-leaf root has entries (non-root non-leaf nodes have some by
+the envelope clause). -/
 def Tree.WF [Bounded O] (t : Tree O) : Bool :=
-  wfNode t.maxC t.height t.root && t.size == t.abs.length
+  wfNode t.maxC t.height t.root && t.size == t.abs.length &&
+    (t.root.leaf || !t.root.entries.isEmpty)
 
 /-! ### history semantics -/
 
